@@ -36,6 +36,8 @@ type Ledger struct {
 	DNS     []string
 	Creator map[string]string // token -> current create-role holder (driver bookkeeping for discipline only)
 	Pending map[string]bool   // token -> hand-over in flight
+	Believed map[string]map[string]bool // account|token -> the roles the SYSTEM CONTRACT believes it has granted there (its own bookkeeping:
+	// what it set minus what it un-set); "never a role twice" is decided on this, not on what the account really stores
 	TraceNo int
 	Weights map[string]int
 	Triple  bool // C13: run every step on replicas too
@@ -163,7 +165,49 @@ type wr struct {
 	addr, key, val []byte
 }
 
+// believedRoles: the system contract's books for (account, token), opened with what the account stores at that moment.
+func (d *Ledger) believedRoles(acct string, tok []byte) map[string]bool {
+	if d.Believed == nil {
+		d.Believed = map[string]map[string]bool{}
+	}
+	k := acct + "|" + fmt.Sprintf("%x", tok)
+	if b, ok := d.Believed[k]; ok {
+		return b
+	}
+	b := map[string]bool{}
+	if ai := d.W.Info(acct); ai != nil && ai.Shard >= 0 && ai.Shard < len(d.W.Shards) {
+		acc := d.P.Acct(d.W.Shards[ai.Shard].Peek(ai.Bytes))
+		for _, r := range acc.Roles[fmt.Sprintf("%x", tok)] {
+			var rb []byte
+			fmt.Sscanf(r, "%x", &rb)
+			b[string(rb)] = true
+		}
+	}
+	d.Believed[k] = b
+	return b
+}
+
 func (d *Ledger) recordMid(kind string, shard int, c *world.Call, mid int, dup bool) *world.StepResult {
+	var books map[string]bool
+	if kind == "exec" && (c.Fn == "ESDTSetRole" || c.Fn == "ESDTUnSetRole") && len(c.Args) >= 2 && bytes.Equal(c.Caller, d.W.Addr("esdtsc")) {
+		if n := d.W.NameOf(c.Rcpt); d.W.Info(n) != nil {
+			books = d.believedRoles(n, c.Args[0])
+		}
+	}
+	r := d.recordMid0(kind, shard, c, mid, dup)
+	if books != nil && r != nil && r.Res == "ok" {
+		for _, x := range c.Args[1:] {
+			if c.Fn == "ESDTSetRole" {
+				books[string(x)] = true
+			} else {
+				delete(books, string(x))
+			}
+		}
+	}
+	return r
+}
+
+func (d *Ledger) recordMid0(kind string, shard int, c *world.Call, mid int, dup bool) *world.StepResult {
 	sh := d.W.Shards[shard]
 	conc := world.Describe(kind, shard, c, mid)
 	conc["dup"] = dup
@@ -525,6 +569,11 @@ func (d *Ledger) callTail(to string) [][]byte {
 		return nil
 	}
 	t := [][]byte{[]byte("fn" + fmt.Sprint(d.R.Intn(3)))}
+	if d.chance(15) {
+		// names the call-data grammar can represent but a careless tokenizer / decoder might not keep: white space at either end or
+		// alone, hex-looking and upper-case names, punctuation (the name is written raw, not hex-encoded)
+		t[0] = []byte([]string{" init", "ping\n", "\t", "ABCD", "0a", "x y", "Fn-1.2", "fn\x00"}[d.R.Intn(8)])
+	}
 	for i := d.R.Intn(3); i > 0; i-- {
 		switch d.R.Intn(3) {
 		case 0:
@@ -570,14 +619,10 @@ func (d *Ledger) actSetRole() {
 		tok = d.pickTok(d.NFT)
 	}
 	// discipline: never a role twice, one create-role holder per token
-	acc := d.P.Acct(d.W.Shards[d.shardOfName(to)].Peek(d.W.Addr(to)))
-	have := map[string]bool{}
-	for _, r := range acc.Roles[fmt.Sprintf("%x", tok)] {
-		have[r] = true
-	}
+	have := d.believedRoles(to, tok)
 	var roles [][]byte
 	for _, r := range AllRoles {
-		if have[fmt.Sprintf("%x", r)] || !d.chance(40) {
+		if have[r] || !d.chance(40) {
 			continue
 		}
 		if r == "ESDTRoleNFTCreate" {
@@ -888,8 +933,9 @@ func (d *Ledger) actNFTTransfer() {
 	}
 	dest := d.destFor(from)
 	args := [][]byte{tok, nb(nonce), d.amt(d.someAmount(have)), dest}
-	if d.chance(5) {
-		args[1] = append([]byte{0}, args[1]...)
+	if d.chance(7) {
+		// the same nonce written with leading zero bytes - one, or so many that the number is longer than eight bytes
+		args[1] = append(make([]byte, []int{1, 8, 9, 12}[d.R.Intn(4)]), args[1]...)
 	}
 	args = append(args, d.callTail("")...)
 	c := d.call("ESDTNFTTransfer", from, from, args...)
@@ -1028,7 +1074,11 @@ func (d *Ledger) actMulti() {
 			if d.chance(14) || (nonce >= 256 && d.chance(25)) {
 				tok, nonce = d.aliasSplit(tok, nonce)
 			}
-			args = append(args, tok, nb(nonce), d.amt(d.someAmount(d.q(h.val))))
+			nbs := nb(nonce)
+			if d.chance(6) {
+				nbs = append(make([]byte, []int{1, 8, 9}[d.R.Intn(3)]), nbs...) // leading zero bytes, also beyond eight bytes in all
+			}
+			args = append(args, tok, nbs, d.amt(d.someAmount(d.q(h.val))))
 		} else {
 			args = append(args, d.anyTok(), nb(uint64(d.R.Intn(3))), d.amt(int64(d.R.Intn(3))))
 		}
@@ -1705,6 +1755,10 @@ func (d *Ledger) nonPayable() []string {
 }
 
 func (d *Ledger) actForged() {
+	if d.chance(35) {
+		d.actForgedLocal()
+		return
+	}
 	rcpt := d.anyAcct()
 	plain := false
 	if np := d.nonPayable(); len(np) > 0 && d.chance(35) {
